@@ -136,14 +136,17 @@ pub use event::EventKind;
 pub struct Event {
     pub kind: EventKind,
     pub paths: Vec<PathBuf>,
+    /// stands for `attrs.flag() == Some(Flag::Rescan)`: the kernel queue overflowed, events were
+    /// lost; notify reports it as `EventKind::Other` with NO path
+    rescan: bool,
 }
 
 impl Event {
     pub fn new(kind: EventKind) -> Self {
-        Event { kind, paths: vec![] }
+        Event { kind, paths: vec![], rescan: false }
     }
     pub fn need_rescan(&self) -> bool {
-        false
+        self.rescan
     }
 }
 
@@ -158,6 +161,7 @@ fn kind_of(code: u8) -> EventKind {
         simrt::vfs::K_RENAME_FROM => EventKind::Modify(ModifyKind::Name(RenameMode::From)),
         simrt::vfs::K_RENAME_TO => EventKind::Modify(ModifyKind::Name(RenameMode::To)),
         simrt::vfs::K_RENAME_BOTH => EventKind::Modify(ModifyKind::Name(RenameMode::Both)),
+        simrt::vfs::K_RESCAN => EventKind::Other,
         _ => EventKind::Any,
     }
 }
@@ -193,7 +197,7 @@ pub type RecommendedWatcher = INotifyWatcher;
 impl Watcher for INotifyWatcher {
     fn new<F: EventHandler>(mut event_handler: F, _config: Config) -> Result<Self> {
         let id = simrt::vfs::new_watcher(Box::new(move |kind, paths| {
-            event_handler.handle_event(Ok(Event { kind: kind_of(kind), paths }))
+            event_handler.handle_event(Ok(Event { kind: kind_of(kind), paths, rescan: kind == simrt::vfs::K_RESCAN }))
         }));
         Ok(INotifyWatcher { id })
     }
